@@ -967,6 +967,9 @@ type ServerResp struct {
 	Trailer     http.Header
 	// TrailersOnly: gRPC/gRPC-Web error with no messages is sent in the head.
 	TrailersOnly bool
+	// StatusInHeadKeepTrailers (gRPC, with TrailersOnly): the status keys go into the head, but
+	// the application's trailers stay HTTP trailers.
+	StatusInHeadKeepTrailers bool
 	// CompressEnd: compress the Connect end-stream / gRPC-Web trailer frame.
 	CompressEnd bool
 	// TrailerSpelling: how the lines of a gRPC-Web trailer frame are written (HTTP/1 field
@@ -1116,6 +1119,14 @@ func (s *ServerResp) Encode() *ServerOut {
 		}
 		if s.TrailersOnly && len(s.Msgs) == 0 {
 			grpcStatusHeaders(s.End, out.Header)
+			if s.StatusInHeadKeepTrailers && s.Form == GRPC {
+				// the status is in the head, the application's trailers are (HTTP) trailers
+				out.Trailer = http.Header{}
+				for k, v := range s.Trailer {
+					out.Trailer[k] = append([]string(nil), v...)
+				}
+				break
+			}
 			for k, v := range s.Trailer {
 				out.Header[k] = append(out.Header[k], v...)
 			}
